@@ -40,6 +40,9 @@ pub enum C {
     Plus(A, A, A), Minus(A, A, A), Times(A, A, A), Lte(A, A), Lt(A, A), Ne(A, A), Distinct(Vec<A>), Eq(A, A),
     /// `[a1, a2] == [b1, b2]`: one unification that binds several variables at once
     EqL(Vec<A>, Vec<A>),
+    /// `conde { [a..], [b..] }`: a disjunction of two conjunctions of constraints (C10: what one branch does to a
+    /// domain or to a shared constraint object must not be seen by the other)
+    Or(Vec<C>, Vec<C>),
 }
 impl C {
     fn show(&self) -> String {
@@ -55,7 +58,12 @@ impl C {
             C::Distinct(v) => format!("distinct({})", v.iter().map(|a| a.show()).collect::<Vec<_>>().join(",")),
             C::Eq(a, b) => format!("eq({},{})", a.show(), b.show()),
             C::EqL(a, b) => format!("eql({}|{})", a.iter().map(|x| x.show()).collect::<Vec<_>>().join(","), b.iter().map(|x| x.show()).collect::<Vec<_>>().join(",")),
+            C::Or(a, b) => format!("or({}/{})", a.iter().map(|x| x.show()).collect::<Vec<_>>().join("&"), b.iter().map(|x| x.show()).collect::<Vec<_>>().join("&")),
         }
+    }
+    /// how many times the assignment is an answer of this constraint: a disjunction answers once per branch that holds
+    fn mult(&self, asg: &[isize]) -> usize {
+        match self { C::Or(a, b) => (a.iter().all(|k| k.holds(asg)) as usize) + (b.iter().all(|k| k.holds(asg)) as usize), other => other.holds(asg) as usize }
     }
     fn holds(&self, asg: &[isize]) -> bool {
         match self {
@@ -70,6 +78,7 @@ impl C {
             C::Distinct(v) => { let xs: Vec<isize> = v.iter().map(|a| a.val(asg)).collect(); (0..xs.len()).all(|i| (i + 1..xs.len()).all(|j| xs[i] != xs[j])) }
             C::Eq(a, b) => a.val(asg) == b.val(asg),
             C::EqL(a, b) => a.len() == b.len() && a.iter().zip(b.iter()).all(|(x, y)| x.val(asg) == y.val(asg)),
+            C::Or(a, b) => a.iter().all(|k| k.holds(asg)) || b.iter().all(|k| k.holds(asg)),
         }
     }
     fn class(&self) -> &'static str {
@@ -94,7 +103,13 @@ fn build(prog: &[C], vars: &[T], q: &T, variant: u8) -> Goal<U, E> {
         _ => LTerm::from_vec(vars.to_vec()),
     };
     let mut goals: Vec<Goal<U, E>> = vec![Eq::new::<Goal<U, E>>(q.clone(), qterm).cast_into()];
-    for c in prog {
+    for c in prog { goals.push(build_one(c, vars)); }
+    goals.push(reify(q.clone()));
+    Conj::from_vec(goals)
+}
+
+fn build_one(c: &C, vars: &[T]) -> Goal<U, E> {
+    {
         let g: Goal<U, E> = match c {
             C::Dom(v, d) => infd::<U, E, Goal<U, E>>(vars[*v].clone(), &d[..]).cast_into(),
             C::DomR(v, a, b) => infdrange::<U, E, Goal<U, E>>(vars[*v].clone(), &(*a..=*b)).cast_into(),
@@ -107,11 +122,14 @@ fn build(prog: &[C], vars: &[T], q: &T, variant: u8) -> Goal<U, E> {
             C::Distinct(v) => distinctfd::<U, E, Goal<U, E>>(LTerm::from_vec(v.iter().map(|a| term(a, vars)).collect())).cast_into(),
             C::Eq(a, b) => Eq::new::<Goal<U, E>>(term(a, vars), term(b, vars)).cast_into(),
             C::EqL(a, b) => Eq::new::<Goal<U, E>>(LTerm::from_vec(a.iter().map(|x| term(x, vars)).collect()), LTerm::from_vec(b.iter().map(|x| term(x, vars)).collect())).cast_into(),
+            C::Or(a, b) => {
+                let ga: Vec<Goal<U, E>> = a.iter().map(|x| build_one(x, vars)).collect();
+                let gb: Vec<Goal<U, E>> = b.iter().map(|x| build_one(x, vars)).collect();
+                proto_vulcan::operator::conde::Conde::from_conjunctions(&[&ga[..], &gb[..]]).cast_into()
+            }
         };
-        goals.push(g);
+        g
     }
-    goals.push(reify(q.clone()));
-    Conj::from_vec(goals)
 }
 
 fn run_real(prog: &[C], variant: u8) -> Vec<Vec<Option<isize>>> {
@@ -134,7 +152,7 @@ fn solutions(prog: &[C], doms: &[Vec<isize>]) -> Vec<Vec<isize>> {
     let mut out = vec![];
     for &a in &doms[0] { for &b in &doms[1] { for &c in &doms[2] {
         let asg = [a, b, c];
-        if prog.iter().all(|k| k.holds(&asg)) { out.push(asg.to_vec()); }
+        if prog.iter().all(|k| k.holds(&asg)) { let m: usize = prog.iter().map(|k| k.mult(&asg)).product(); for _ in 0..m { out.push(asg.to_vec()); } }
     } } }
     out
 }
@@ -149,7 +167,9 @@ fn check(rep: &mut Report, prog: &[C]) {
     let neg = doms.iter().any(|d| d.iter().any(|x| *x < 0)) || prog.iter().any(|c| format!("{:?}", c).contains("K(-"));
     let class = if prog.iter().any(|c| matches!(c, C::Times(..))) && neg { "times-negative" } else if prog.iter().any(|c| matches!(c, C::Times(..))) { "times" } else if prog.iter().any(|c| c.class() == "alias") { "alias" } else { "plain" };
     let exp = solutions(prog, &doms);
+    let has_or = prog.iter().any(|c| matches!(c, C::Or(..)));
     for variant in 0u8..6 {
+    if has_or && variant != 0 { continue; }
     let vname = ["", " [compound-query]", " [nested-compound-query]", " [hidden-variables]", " [list-in-compound-query]", " [compound-in-compound-query]"][variant as usize];
     let inp = format!("{}{}", inp, vname);
     let class = if variant == 0 { class } else { &vname[2..vname.len() - 1] };
@@ -186,7 +206,11 @@ fn check(rep: &mut Report, prog: &[C]) {
             gs.sort();
             let mut es = exp.clone(); es.sort();
             let mut gd = gs.clone(); gd.dedup();
-            if gd.len() != gs.len() { rep.fail("complete", inp.clone(), "each solution once".into(), format!("{:?}", gs), class); }
+            if has_or {
+                // a disjunction answers an assignment once per branch that holds: compare as multisets
+                if es != gs { rep.fail("complete", inp.clone(), format!("{:?}", es), format!("{:?}", gs), "disjunction"); }
+            }
+            else if gd.len() != gs.len() { rep.fail("complete", inp.clone(), "each solution once".into(), format!("{:?}", gs), class); }
             else if es.iter().any(|s| !gd.contains(s)) { rep.fail("complete", inp.clone(), format!("{:?}", es), format!("{:?}", gd), class); }
         }
     }
@@ -212,9 +236,25 @@ fn gen(r: &mut Rng, signed: bool) -> Vec<C> {
             prog.push(C::DomR(v, a, b));
         }
     }
-    let op = |r: &mut Rng| if r.below(5) == 0 { A::K(lo + r.below((hi - lo + 1) as usize) as isize) } else { A::V(r.below(NV)) };
     let m = 1 + r.below(3);
     for _ in 0..m {
+        let c = gen_c(r, lo, hi);
+        prog.push(c);
+    }
+    // now and then a disjunction of two small conjunctions (domains may be narrowed inside a branch)
+    if r.below(4) == 0 {
+        let mut br = |r: &mut Rng| -> Vec<C> { (0..1 + r.below(2)).map(|_| if r.below(4) == 0 { let v = r.below(NV); let a = lo + r.below((hi - lo + 1) as usize) as isize; let b = a + r.below((hi - a + 1) as usize) as isize; C::DomR(v, a, b) } else { gen_c(r, lo, hi) }).collect() };
+        let (a, b) = (br(r), br(r));
+        prog.push(C::Or(a, b));
+    }
+    // random posting order (domains may come after the constraints)
+    for i in (1..prog.len()).rev() { let j = r.below(i + 1); prog.swap(i, j); }
+    prog
+}
+
+fn gen_c(r: &mut Rng, lo: isize, hi: isize) -> C {
+    let op = |r: &mut Rng| if r.below(5) == 0 { A::K(lo + r.below((hi - lo + 1) as usize) as isize) } else { A::V(r.below(NV)) };
+    {
         let c = match r.below(10) {
             0 | 1 => C::Plus(op(r), op(r), op(r)), 2 => C::Minus(op(r), op(r), op(r)), 3 | 4 => C::Times(op(r), op(r), op(r)),
             5 => C::Lte(A::V(r.below(NV)), op(r)), 6 => C::Lt(A::V(r.below(NV)), op(r)), 7 => C::Ne(A::V(r.below(NV)), op(r)),
@@ -226,11 +266,8 @@ fn gen(r: &mut Rng, signed: bool) -> Vec<C> {
             }
             _ => if r.below(3) == 0 { C::EqL(vec![A::V(r.below(NV)), A::V(r.below(NV))], vec![op(r), op(r)]) } else { C::Eq(A::V(r.below(NV)), op(r)) },
         };
-        prog.push(c);
+        c
     }
-    // random posting order (domains may come after the constraints)
-    for i in (1..prog.len()).rev() { let j = r.below(i + 1); prog.swap(i, j); }
-    prog
 }
 
 pub fn search(tier: &str, seed: u64, only: Option<&str>) {
@@ -248,6 +285,14 @@ pub fn search(tier: &str, seed: u64, only: Option<&str>) {
     for items in [vec![A::V(0), A::K(2), A::V(1), A::K(0)], vec![A::K(1), A::V(0), A::K(-1), A::V(1), A::V(2)], vec![A::V(0), A::K(1), A::K(1)], vec![A::K(3), A::V(2), A::K(0), A::V(0)]] {
         let mut p = dom3(-1, 3); p.push(C::Distinct(items.clone())); fixed.push(p);
         let mut p = vec![C::Distinct(items.clone())]; p.extend(dom3(-1, 3)); fixed.push(p);
+    }
+    // C10: a disjunction whose branches narrow the same domain / extend the same all-different constraint differently
+    for (a, b) in [(vec![C::DomR(0, 0, 1)], vec![C::DomR(0, 2, 3)]), (vec![C::Eq(A::V(0), A::K(1))], vec![C::Eq(A::V(0), A::K(2))]), (vec![C::Eq(A::V(0), A::K(1)), C::Eq(A::V(1), A::K(2))], vec![C::Eq(A::V(1), A::K(1))]),
+                   (vec![C::Lt(A::V(0), A::V(1))], vec![C::Lt(A::V(1), A::V(0))]), (vec![C::Plus(A::V(0), A::V(1), A::K(3))], vec![C::Times(A::V(0), A::V(1), A::K(2))])] {
+        for extra in [C::Distinct(vec![A::V(0), A::V(1), A::V(2)]), C::Plus(A::V(0), A::V(1), A::V(2)), C::Lte(A::V(0), A::V(2)), C::Ne(A::V(1), A::V(2))] {
+            let mut p = dom3(0, 3); p.push(extra.clone()); p.push(C::Or(a.clone(), b.clone())); fixed.push(p);
+            let mut p = dom3(0, 3); p.push(C::Or(a.clone(), b.clone())); p.push(extra.clone()); fixed.push(p);
+        }
     }
     // a constraint posted on a variable that `==` has aliased to another one (the operand as posted is not the
     // representative that carries the domain), observed both fully and with the aliased pair hidden
@@ -304,20 +349,18 @@ pub fn search(tier: &str, seed: u64, only: Option<&str>) {
     rep.print();
 }
 
-fn parse_prog(body: &str) -> Vec<C> {
+fn parse_c(c: &str) -> C {
     let op = |s: &str| -> A { if let Some(r) = s.strip_prefix('x') { A::V(r.parse().unwrap()) } else { A::K(s.parse().unwrap()) } };
-    let mut prog = vec![];
-    for c in body.split(';') {
-        if let Some(p) = c.find("in{") { let v: usize = c[1..p].parse().unwrap(); let d: Vec<isize> = c[p + 3..c.len() - 1].split(' ').filter(|s| !s.is_empty()).map(|s| s.parse().unwrap()).collect(); prog.push(C::Dom(v, d)); continue; }
-        if let Some(p) = c.find("in") { let v: usize = c[1..p].parse().unwrap(); let ab: Vec<&str> = c[p + 2..].split("..").collect(); prog.push(C::DomR(v, ab[0].parse().unwrap(), ab[1].parse().unwrap())); continue; }
-        let p = c.find('(').unwrap();
-        if &c[..p] == "eql" { let halves: Vec<&str> = c[p + 1..c.len() - 1].split('|').collect(); prog.push(C::EqL(halves[0].split(',').map(op).collect(), halves[1].split(',').map(op).collect())); continue; }
-        let args: Vec<A> = c[p + 1..c.len() - 1].split(',').map(op).collect();
-        prog.push(match &c[..p] { "plus" => C::Plus(args[0], args[1], args[2]), "minus" => C::Minus(args[0], args[1], args[2]), "times" => C::Times(args[0], args[1], args[2]),
-            "lte" => C::Lte(args[0], args[1]), "lt" => C::Lt(args[0], args[1]), "ne" => C::Ne(args[0], args[1]), "distinct" => C::Distinct(args), _ => C::Eq(args[0], args[1]) });
-    }
-    prog
+    if let Some(inner) = c.strip_prefix("or(") { let inner = &inner[..inner.len() - 1]; let halves: Vec<&str> = inner.split('/').collect(); return C::Or(halves[0].split('&').map(parse_c).collect(), halves[1].split('&').map(parse_c).collect()); }
+    if let Some(p) = c.find("in{") { let v: usize = c[1..p].parse().unwrap(); let d: Vec<isize> = c[p + 3..c.len() - 1].split(' ').filter(|s| !s.is_empty()).map(|s| s.parse().unwrap()).collect(); return C::Dom(v, d); }
+    if !c.contains('(') { let p = c.find("in").unwrap(); let v: usize = c[1..p].parse().unwrap(); let ab: Vec<&str> = c[p + 2..].split("..").collect(); return C::DomR(v, ab[0].parse().unwrap(), ab[1].parse().unwrap()); }
+    let p = c.find('(').unwrap();
+    if &c[..p] == "eql" { let halves: Vec<&str> = c[p + 1..c.len() - 1].split('|').collect(); return C::EqL(halves[0].split(',').map(op).collect(), halves[1].split(',').map(op).collect()); }
+    let args: Vec<A> = c[p + 1..c.len() - 1].split(',').map(op).collect();
+    match &c[..p] { "plus" => C::Plus(args[0], args[1], args[2]), "minus" => C::Minus(args[0], args[1], args[2]), "times" => C::Times(args[0], args[1], args[2]),
+        "lte" => C::Lte(args[0], args[1]), "lt" => C::Lt(args[0], args[1]), "ne" => C::Ne(args[0], args[1]), "distinct" => C::Distinct(args), _ => C::Eq(args[0], args[1]) }
 }
+fn parse_prog(body: &str) -> Vec<C> { body.split(';').map(parse_c).collect() }
 
 pub fn replay(input: &str) {
     // input: "<check> <program text>" in the format printed by show()
